@@ -190,10 +190,17 @@ def load_mod(name):
 def run_py(ctx, mode, req, timeout):
     drv = os.path.join(F.VERIF, "harness", "drivers", "c44_mjx.py")
     env = dict(os.environ, JAX_PLATFORMS="cpu")
-    try:
-        r = subprocess.run([PY, drv, ctx.repo, mode], input=json.dumps(req), capture_output=True, text=True, timeout=timeout, env=env)
-    except subprocess.TimeoutExpired:
-        return None, "timeout after %ds" % timeout
+    import time as _time
+    for attempt in range(3):
+        try:
+            r = subprocess.run([PY, drv, ctx.repo, mode], input=json.dumps(req), capture_output=True, text=True, timeout=timeout, env=env)
+        except subprocess.TimeoutExpired:
+            return None, "timeout after %ds" % timeout
+        # XLA/LLVM aborts when the machine is momentarily out of memory for its JIT sections: environment, not an answer
+        if r.returncode != 0 and "Cannot allocate memory" in r.stderr and attempt < 2:
+            _time.sleep(30 * (attempt + 1))
+            continue
+        break
     if r.returncode != 0:
         return None, "rc=%d %s" % (r.returncode, r.stderr[-1500:])
     try:
